@@ -80,6 +80,7 @@ typedef struct CO_LSS_T {
     uint8_t           CfgNodeId;     /* buffered node ID config for storage  */
     uint8_t           Mode;          /* mode of layer setting service slave  */
     uint8_t           Step;          /* LSS address selection step           */
+    uint8_t           Switch;        /* bit timing activation step           */
     uint8_t           Flags;         /* event flags                          */
 
 } CO_LSS;
